@@ -497,7 +497,29 @@ func (c c10Conv) pt() string { return digest(c10ConvPT{c.CrdName, append([][2]st
 
 // ------------------------------------------------------------------ parser oracles
 
-func c10CronOK(s string) bool { _, err := cron.Parse(s); return err == nil }
+// c10ZeroStep: some field of the crontab has a step that is the number zero ("*/0", "1-5/00"). The cron
+// library does not reject it, it never returns (its bit loop adds the step) — so the oracle must not
+// call the parser on it. A crontab with a zero step is a bad crontab.
+func c10ZeroStep(s string) bool {
+	for _, f := range strings.Fields(s) {
+		for _, e := range strings.Split(f, ",") {
+			if p := strings.Split(e, "/"); len(p) == 2 {
+				if n, err := strconv.Atoi(p[1]); err == nil && n == 0 {
+					return true
+				}
+			}
+		}
+	}
+	return false
+}
+
+func c10CronOK(s string) bool {
+	if c10ZeroStep(s) {
+		return false
+	}
+	_, err := cron.Parse(s)
+	return err == nil
+}
 func c10LabelSelOK(ls *metav1.LabelSelector) bool {
 	if ls == nil {
 		return true
